@@ -79,6 +79,14 @@ CLAIMS = {
    text="Lean theorems over the API state machine from an arbitrary prior object: after crypt_r/crypt_rn the scratch areas (internal, reserved, initialized) are all zero iff the request got past validation (characterised exactly), otherwise untouched; too-small sizes never touch them. Harness: every byte of the object is inspected after each call of random histories over pre-filled objects (zero predicate, unchanged predicate, passphrase search in 6 encodings), digest/HMAC contexts after final, crypt_ra's erase-before-realloc through the ledger.",
    note=TB + "The stack clause depends on compiler frame layout and is not modelled; a poisoned-stack scan runs in the thorough tier as a search aid only. crypt_gensalt's entropy buffer is a stack object (same limitation).",
    technique="Lean 4 proof (object clause) + full-object inspection after every call", ref="DESIGN.md §6 C09"),
+ "C02": dict(
+   text="Every primitive is executable in the Lean model (constants, S-boxes, step schedules, output permutations generated from the tree) and the full hash string is compared with the implementation for all 16 methods; Lean theorems tie the call-by-call (streaming) cores to the published one-shot formulations; each hash is additionally compared with independent Python implementations written from the public specifications (md5crypt, sha256/512crypt, SunMD5, sha1crypt, NT, descrypt, bigcrypt, bsdicrypt via a bit-level FIPS DES, scrypt via hashlib), with openssl passwd and with the released libxcrypt 4.4.33 for all methods.",
+   note=TB + "For bcrypt, yescrypt and gost-yescrypt the 'specification' is the Lean model itself validated cross-release (no independent specification is available in the sandbox); Model = Spec theorems exist for the digest-based cores, the rest is by correspondence.",
+   technique="Lean 4 model + proof (partial) with exact correspondence and independent-implementation oracles", ref="DESIGN.md §6 C02"),
+ "C03": dict(
+   text="Perturbation oracle on the implementation and the model (full outputs): every single-bit flip, truncation and extension inside the documented significant window changes the hash, flips outside it (bytes beyond 8/128/72, 8th bit for DES-based methods) do not, every salt character change changes the hash part; Lean theorems: the insignificant windows of descrypt/bigcrypt, injectivity of the text encodings.",
+   note=TB + "Collision resistance of the primitives is a cryptographic assumption and is not provable; the theorems cover the structural part (what is and is not fed to the primitive, injective encodings).",
+   technique="Lean 4 proof (partial) + exhaustive-position perturbation oracle", ref="DESIGN.md §6 C03"),
 }
 NOT_YET = "check under construction in this round; not claimed yet"
 
